@@ -5,5 +5,6 @@ cd "$(dirname "$0")"
 export CARGO_NET_OFFLINE=true
 mkdir -p target evidence replays
 ( cd harness && cargo build --quiet --profile checked && cargo build --quiet --profile unchecked )
-( cd /repo && cargo build --quiet --offline -p statime-linux --bin statime-metrics-exporter --target-dir /verif/target/repo )
+HERE=$(pwd)
+( cd /repo && cargo build --quiet --offline -p statime-linux --bin statime-metrics-exporter --bin statime --target-dir "$HERE/target/repo" )
 echo "setup ok"
